@@ -62,6 +62,9 @@ def sym_fcs(I, name, N, D, dtype='float', range_never_none=True, distinct_names=
 
     def opt(nonef, mk):
         def fn(I_, i, nonef=nonef, mk=mk):
+            facts = getattr(a, 'elem_facts', None)
+            if facts is not None and not I_.ctx.quant_mode:
+                I_.ctx.assume(facts(i))       # instance of a quantified precondition at the entry being read
             if nonef is None:
                 return mk(I_, i)
             return OptVal(nonef(i), mk(I_, i))     # deferred: no fork unless the entry is inspected
@@ -95,7 +98,7 @@ def sym_fcs(I, name, N, D, dtype='float', range_never_none=True, distinct_names=
         '_amplifier_gain': tup('tuple', opt(m.ag_none, lambda I_, i: SV(m.ag(i), 'real'))),
         '_channel_labels': tup('tuple', opt(m.lab_none, lambda I_, i: SV(m.lab(i), 'str'))),
         '_range': tup('list', opt(None if range_never_none else m.rng_none, rng_cell)),
-        '_resolution': tup('tuple', lambda I_, i: SV(m.res(i), 'int')),
+        '_resolution': tup('tuple', opt(None, lambda I_, i: SV(m.res(i), 'int'))),
     }
     a.attrs['_range'].elem_token = ('range-cells', name)
     for v in a.attrs.values():
